@@ -642,7 +642,7 @@ def corpus_scenarios(run):
     for i, path in enumerate(sorted(glob.glob(os.path.join(VERIF, "corpus", "C06", "*.json")))):
         e = json.load(open(path))
         name = os.path.basename(path)[:-5]
-        for k, snake in enumerate((True, False)):
+        for k, snake in enumerate((True, False) if e.get("both_cases") else (True,)):
             out.append(inputs_schema.from_types(name, e["types"], 900000 + 2 * i + k, snake,
                                                 notes={"accept": e.get("accept"), "expect_finding": e.get("expect_finding")}))
         run.dist("corpus", name)
